@@ -33,6 +33,8 @@ def run_property(pid, tier, write=True, root=None):
         analysis_error(pid, "no check registered for this property")
         return 2, rep
     from . import core as _core
+    from . import sym as _sym
+    _sym.OPAQUE_GENERATORS.clear()
     del _core.ALL_INTERPS[:]
     _core.DECORATED_ENTRIES.clear()
     _core.CALL_FORM[:] = [None, False]
@@ -99,6 +101,19 @@ def run_property(pid, tier, write=True, root=None):
                 print("  NOTE " + note)
         except Inconclusive as e:
             rep.unk("SELFTEST", {"file": "-", "line": 0, "function": "-", "construct": "catalogue"}, "self-validation could not run: %s" % e.why)
+    # a generator of the repository whose object ended up inside a term was consumed by something the engine does not read as a loop (zip with a
+    # range, list(...) of it, next(...)): what it yields, draws and raises was not seen. Rules that then found something missing decided from an
+    # incomplete picture: their verdicts are withdrawn, the run is undecided
+    if _sym.OPAQUE_GENERATORS:
+        from .report import VIOLATION, INCONCLUSIVE
+        for g_ in sorted(_sym.OPAQUE_GENERATORS):
+            gf = prog.funcs.get(g_)
+            rep.unk("GENERATOR.consumed", {"file": gf.module.relpath if gf else "-", "line": gf.node.lineno if gf else 0, "function": g_, "construct": "def " + g_.rsplit(".", 1)[-1]},
+                    "the generator %s is consumed in a way that is not read as a loop: what it yields, draws and raises is not part of the analysis" % g_)
+        for i_ in rep.instances:
+            if i_.verdict == VIOLATION:
+                i_.verdict = INCONCLUSIVE
+                i_.msg = "(not decided: a generator of the repository was consumed unread) " + i_.msg
     # unmodelled constructs matter only where the check looked: inside the functions it analysed, or at module level of a
     # module one of them lives in (star imports, decorated definitions it resolved names through)
     visited, decorated_ok = set(), set()
